@@ -33,6 +33,46 @@ def corpus_repeated(ctx, reps):
     return out
 
 
+def wal_snapshot_race(ctx):
+    """"No accepted change is lost, none is applied twice" for the write-ahead-log store while the snapshot task of another
+    store object prunes the change sets: the corpus scenario aggstore-conc/race-wal-snapshot (harness `aggstore --conc`,
+    op `racewal`) judged by the oracles none_lost_or_twice / versions_consecutive of the `aggstore` driver - the
+    publication server's content log is such a store, its snapshot task runs on the scheduler thread beside the workers."""
+    from pathlib import Path
+    f = vlib.VERIF / "corpus" / "aggstore-conc" / "race-wal-snapshot.ops"
+    if not f.exists():
+        return False
+    found = False
+    tr = ctx.work / "race-wal.trace"
+    r = vlib.run([vlib.hbin("aggstore"), "--ops", str(f), "--out", str(tr), "--conc"], timeout=3600)
+    if r.returncode != 0:
+        ctx.log(f"aggstore harness failed on race-wal-snapshot: {r.stdout[-1500:]}")
+        vlib.report_violation(ctx, "harness-crash", {"harness": "aggstore", "output": r.stdout[-3000:]}, signature="crash:aggstore:racewal")
+        return True
+    vf = Path(str(tr) + ".verdict")
+    if not vlib.run_model(ctx, "aggstore", tr, vf):
+        vlib.report_violation(ctx, "model-driver-crash", {"stream": "aggstore"}, found_input=False)
+        return False
+    cases = vlib.parse_cases(tr, vf)
+    if cases is None:
+        vlib.report_violation(ctx, "model-driver-desync", {"stream": "aggstore"}, found_input=False)
+        return False
+    vlib.histogram(ctx, cases)
+    ctx.traces_validated += len(cases)
+    for c in cases:
+        for idx, (t, v) in enumerate(c["ops"]):
+            if v.startswith("FAIL") or v.startswith("bad-op"):
+                found = True
+                vlib.report_violation(ctx, "implementation-vs-oracle" if "ORACLE" in v or v.startswith("FAIL oracle") else "model-vs-implementation", {
+                    "stream": "aggstore", "harness": "aggstore", "case": c["id"], "conc": True,
+                    "ops": [vlib.strip_obs(x) for x, _ in c["ops"][: idx + 1]],
+                    "verdict": v[:1500],
+                    "replay_cmd": f"./check {ctx.pid} --replay <this file>",
+                }, signature="oracle:racewal")
+                break
+    return found
+
+
 def check(ctx):
     # the lock sites of /repo's current source: every site of a non-leaf lock must be visible
     # to the lock-order recorder (theorem source_lock_sites_annotated over the regenerated table)
@@ -42,13 +82,14 @@ def check(ctx):
                          ("event_tasks", "EventTasks.lean"), ("scheduler_tasks", "SchedulerTasks.lean")])
     vlib.prove(ctx, ["KrillModel.Props.C18", "KrillModel.Props.C07", "KrillModel.Props.C09"])
     found = False
-    if vlib.build_harness(ctx, ["conc"]):
+    if vlib.build_harness(ctx, ["conc", "aggstore"]):
+        found = wal_snapshot_race(ctx)
         n = 6 if ctx.tier == "quick" else 240
         # races are probabilistic: every corpus scenario is repeated
         reps = 3 if ctx.tier == "quick" else 40
         traces = corpus_repeated(ctx, reps)
         traces += vlib.parallel_traces(ctx, "conc", n, 0, procs=12)
-        found = vlib.judge_traces(ctx, "conc", "conc", traces, sig)
+        found = vlib.judge_traces(ctx, "conc", "conc", traces, sig) or found
         # a worker that never came back makes the harness exit with code 3 (reported as harness-crash above)
     else:
         ctx.failed_obligations.append("harness-build")
@@ -68,6 +109,25 @@ def check(ctx):
 
 
 def replay(ctx, data):
+    if data.get("harness") == "aggstore":
+        vlib.build_harness(ctx, ["aggstore"])
+        f = ctx.work / "replay.ops"
+        f.write_text("case " + data.get("case", "replay-mem") + "\n" + "\n".join(data["ops"]) + "\n")
+        tr = ctx.work / "replay.trace"
+        vlib.run([vlib.hbin("aggstore"), "--ops", str(f), "--out", str(tr), "--conc"], timeout=3600)
+        from pathlib import Path
+        vf = Path(str(tr) + ".verdict")
+        vlib.run_model(ctx, "aggstore", tr, vf)
+        bad = False
+        for c in vlib.parse_cases(tr, vf) or []:
+            for t, v in c["ops"]:
+                print(vlib.strip_obs(t), " ## ", v[:300])
+                bad |= v.startswith("FAIL")
+        if bad:
+            print(f"VIOLATION property={ctx.pid} replay={f}")
+            return 1
+        ctx.cleanup()
+        return 0
     vlib.build_harness(ctx, ["conc"])
     c = vlib.exec_ops(ctx, "conc", "conc", data.get("case", "replay-mem"), data["ops"], "replay")
     bad = False
@@ -97,5 +157,5 @@ MANIFEST = {
             "the dynamic check shows the code follows the discipline on the exercised paths (a potential inversion is reported "
             "without the fatal interleaving occurring). Leaf locks (guard never kept over a following statement, recomputed from "
             "the source each run) are not instrumented; runs use the daemon's default use_history_cache=true.",
-    "technique": "Lean 4 proof (lock-ranking discipline, unbounded threads) + lockdep correspondence on concurrent runs",
+    "technique": "Lean 4 proof (lock-ranking discipline, unbounded threads) + source translator (lock sites) + lockdep correspondence on concurrent runs + concurrent write-ahead-log scenario (workers beside the snapshot task of another store object: none_lost_or_twice, versions_consecutive)",
 }
